@@ -167,6 +167,28 @@ def check_downsample(case, rec):
             raise Violation("downsample-mutates-input", "input changed")
 
 
+def check_downsample_long(case, rec):
+    """Tens of thousands of distinct elements, a few hundred kept: still a sub-multiset (no element twice)."""
+    n, m, how = case["n"], case["maxseqs"], case["as"]
+    elems = [f"S{i}" for i in range(n)]
+    obj = elems if how == "list" else (np.array(elems) if how == "ndarray" else pd.Series(elems, index=range(7, 7 + n)))
+    rec.note(case, True, [how, f"ratio={n // m}"])
+    np.random.seed(case["np_seed"])
+    out = [str(x) for x in call("downsample", pyrepseq.downsample, obj, m)]
+    if len(out) != m:
+        raise Violation("downsample-size", f"len={n} maxseqs={m}: returned {len(out)} elements")
+    if len(set(out)) != len(out):
+        raise Violation("downsample-not-sub-multiset", f"len={n} maxseqs={m}: an element of a duplicate-free input is returned twice")
+    if not set(out) <= set(elems):
+        raise Violation("downsample-not-sub-multiset", "foreign element returned")
+
+
+@st.composite
+def downsample_long_case(draw, tier="quick"):
+    return {"n": draw(st.sampled_from([5000, 20000, 40000])), "maxseqs": draw(st.sampled_from([40, 150, 300])),
+            "np_seed": draw(st.integers(0, 2 ** 32 - 1)), "as": draw(st.sampled_from(["list", "ndarray", "series"]))}
+
+
 def check_downsample_uniform(case, rec):
     """'a random sub-sample': over M seeded draws every position must be kept with probability maxseqs/N."""
     n, m, M, how = case["n"], case["maxseqs"], case["draws"], case["as"]
@@ -344,6 +366,7 @@ SUBS = [
     Sub("subsample_reuse", check_subsample_reuse, strategy=lambda t: reuse_case(t), budget=(1500, 15000)),
     Sub("subsample_uniform", check_subsample_uniform, strategy=lambda t: uniform_case(t), budget=(48, 480)),
     Sub("downsample", check_downsample, strategy=lambda t: downsample_case(t), budget=(3000, 30000)),
+    Sub("downsample_long", check_downsample_long, strategy=lambda t: downsample_long_case(t), budget=(20, 200)),
     Sub("downsample_uniform", check_downsample_uniform, strategy=lambda t: downsample_uniform_case(t), budget=(32, 320)),
     Sub("powerlaw_sample", check_powerlaw_sample, strategy=lambda t: powerlaw_case(t), budget=(800, 8000)),
     Sub("mle", check_mle, strategy=lambda t: mle_case(t), budget=(1500, 15000)),
